@@ -12,32 +12,58 @@
 (***************************************************************************)
 EXTENDS Client
 
-VARIABLES cancelReq, subSlot
-svars == <<allvars, cancelReq, subSlot>>
+VARIABLES cancelReq, subSlot,
+          reading,   \* 0 the subscriber reads its channel | 1 it has stopped reading | 2 it reads again
+          gstate     \* forwarding goroutine: "select" | "sending" (blocked in `events <- payload`: the channel
+                     \* is unbuffered, so neither the abort channel nor the queue is looked at meanwhile)
+svars == <<allvars, cancelReq, subSlot, reading, gstate>>
 
-SInit == CInit /\ cancelReq = FALSE /\ subSlot = 0
+SInit == CInit /\ cancelReq = FALSE /\ subSlot = 0 /\ reading = 0 /\ gstate = "select"
 
 \* the slot MakeHandler returned to Subscribe
 TrackSlot == subSlot' = IF hst[HS] = "unreg" /\ hst'[HS] = "live" THEN res' ELSE subSlot
 
+Extra == <<cancelReq, subSlot, reading, gstate>>
+
 CancelReq == /\ WithSub /\ sub = "on" /\ ~cancelReq /\ cancelReq' = TRUE
-             /\ UNCHANGED <<allvars, subSlot>>
+             /\ UNCHANGED <<allvars, subSlot, reading, gstate>>
+\* the subscriber stops / resumes reading its channel (each once)
+Pause == /\ WithSub /\ sub = "on" /\ reading = 0 /\ reading' = 1 /\ UNCHANGED <<allvars, cancelReq, subSlot, gstate>>
+Resume == /\ reading = 1 /\ reading' = 2 /\ UNCHANGED <<allvars, cancelReq, subSlot, gstate>>
 
 CancelTake ==
-  /\ sub = "on" /\ cancelReq
+  /\ sub = "on" /\ cancelReq /\ gstate = "select"
   /\ (RemoveBegin(subSlot) \/ RemoveErr(subSlot))
   /\ sub' = "closed"
   /\ UNCHANGED <<cst, out, hslot, late, peer, seen, replied, half, derr, subGot, evSent, faulted>>
-  /\ UNCHANGED <<cancelReq, subSlot>>
+  /\ UNCHANGED Extra
 
-SInternal == (Internal /\ UNCHANGED cancelReq /\ TrackSlot) \/ CancelTake
-SEnv == (Env /\ UNCHANGED cancelReq /\ TrackSlot) \/ CancelReq
+\* the goroutine takes an event while nobody reads: it blocks in the send
+TakeBlocked ==
+  /\ sub = "on" /\ gstate = "select" /\ reading = 1 /\ QLen(HS) > 0
+  /\ taken' = [taken EXCEPT ![HS] = @ + 1] /\ gstate' = "sending"
+  /\ UNCHANGED <<slots, hst, delivered, cap, closerN, closeN, stream, mu, proc, inbox, cur, res>>
+  /\ UNCHANGED <<cvars, cancelReq, subSlot, reading>>
+\* the subscriber reads again: the blocked send completes
+Deliver2 ==
+  /\ gstate = "sending" /\ reading # 1
+  /\ subGot' = subGot + 1 /\ gstate' = "select"
+  /\ UNCHANGED <<vars, cst, out, hslot, late, peer, seen, replied, half, derr, sub, evSent, faulted>>
+  /\ UNCHANGED <<cancelReq, subSlot, reading>>
+
+\* Client's own steps: forwarding (the only step that changes subGot) needs a reading subscriber, and the
+\* goroutine notices the closed queue (the only Internal step closing the subscription) only in its select
+Guarded(A) == /\ A /\ UNCHANGED <<cancelReq, reading, gstate>> /\ TrackSlot
+              /\ (subGot' # subGot => (reading # 1 /\ gstate = "select"))
+              /\ ((sub = "on" /\ sub' = "closed") => gstate = "select")
+SInternal == Guarded(Internal) \/ CancelTake \/ TakeBlocked \/ Deliver2
+SEnv == Guarded(Env) \/ CancelReq \/ Pause \/ Resume
 SNext == SInternal \/ SEnv
-SProgress == SInternal \/ (UNCHANGED <<cancelReq, subSlot>> /\ \E k \in Calls : SendEnd(k) \/ SendFail(k))
-SSpec == SInit /\ [][SNext]_svars /\ WF_svars(SProgress) /\ WF_svars(CancelTake)
-         /\ \A k \in Calls : WF_svars((AwaitReply(k) \/ AwaitErr(k) \/ AwaitClosed(k)) /\ UNCHANGED <<cancelReq, subSlot>>)
-         /\ \A h \in Handlers : WF_svars((AsyncCloser(h) \/ AsyncQClose(h)) /\ UNCHANGED <<cvars, cancelReq, subSlot>>)
-         /\ WF_svars(SubQueueClosed /\ UNCHANGED <<cancelReq, subSlot>>)
+SProgress == SInternal \/ Resume \/ (UNCHANGED Extra /\ \E k \in Calls : SendEnd(k) \/ SendFail(k))
+SSpec == SInit /\ [][SNext]_svars /\ WF_svars(SProgress) /\ WF_svars(CancelTake) /\ WF_svars(Resume) /\ WF_svars(Deliver2)
+         /\ \A k \in Calls : WF_svars((AwaitReply(k) \/ AwaitErr(k) \/ AwaitClosed(k)) /\ UNCHANGED Extra)
+         /\ \A h \in Handlers : WF_svars((AsyncCloser(h) \/ AsyncQClose(h)) /\ UNCHANGED <<cvars, cancelReq, subSlot, reading, gstate>>)
+         /\ WF_svars(Guarded(SubQueueClosed))
 
 \* a cancelled subscription is closed, whether or not the connection was lost before, during or after
 CancelCloses == (sub = "on" /\ cancelReq) ~> (sub = "closed")
